@@ -253,6 +253,10 @@ class SpinConservingHF(Model):
 
 
 def block_cases(tier, seed):
+    # plain tensors with a spin block table of their own (premise of the property: they vanish on non
+    # spin conserving blocks)
+    for t in ("V", "f", "t1_singles", "t1_doubles", "delta"):
+        yield {"tensor": t}
     names = ["t2_1", "t2sq", "p0_2_oo", "p0_2_vv", "t2eri_1", "t2eri_2"]
     if tier != "quick":
         names += ["t1_2", "t2eri_3", "t2eri_4", "t2eri_5", "t2eri_6", "t2eri_7", "t2eri_A", "t2eri_B"]
@@ -260,7 +264,32 @@ def block_cases(tier, seed):
         yield {"itmd": n}
 
 
+def tensor_block_check(case):
+    i, j, a, b = get_symbols("ijab")
+    obj = {"V": AntiSymmetricTensor("V", (i, j), (a, b), 1), "f": AntiSymmetricTensor("f", (i,), (a,), 1),
+           "t1_singles": Amplitude("t1", (a,), (i,)), "t1_doubles": Amplitude("t1", (a, b), (i, j)),
+           "delta": KroneckerDelta(i, j)}[case["tensor"]]
+    o = Expr(obj).terms[0].objects[0]
+    allowed = set(o.allowed_spin_blocks)
+    targets = list(o.idx)
+    model = Model(orbital_space(2, 2), seed=4, braket={"V": 1, "f": 1}, spin_conserving={"V", "f", "t1"})
+    nonzero = set()
+    for asg in all_assignments(targets, model.orbs):
+        block = "".join(asg[s_][2] for s_ in targets)
+        v = evaluate(obj, asg, model)
+        if v != 0:
+            nonzero.add(block)
+            if block not in allowed:
+                return False, (f"{case['tensor']}: the spin block {block} of {obj} is not reported as allowed "
+                               f"{sorted(allowed)} although a spin conserving tensor does not vanish there")
+    if not nonzero:
+        return False, f"{case['tensor']}: the model does not exercise any block"
+    return True, ""
+
+
 def block_check(case):
+    if "tensor" in case:
+        return tensor_block_check(case)
     from adcgen.intermediates import Intermediates
     itmd = Intermediates().available[case["itmd"]]
     idx = itmd.default_idx
@@ -287,5 +316,5 @@ def block_check(case):
 CHECKS["allowed_spin_blocks.complete"] = {
     "function": "adcgen.intermediates:RegisteredIntermediate.allowed_spin_blocks",
     "cases": block_cases, "check": block_check,
-    "bound": "registered intermediates t2_1, t2sq, p0_2_oo/vv, t2eri_1/2 (thorough: + t1_2, t2eri_3..7, A, B): definition evaluated on all spin orbital assignments of 2 occ + 2 virt spatial orbitals with spin conserving integrals; every block that is not reported vanishes",
+    "bound": "the tensors V, f, t1 (singles, doubles), delta and the registered intermediates t2_1, t2sq, p0_2_oo/vv, t2eri_1/2 (thorough: + t1_2, t2eri_3..7, A, B): definition evaluated on all spin orbital assignments of 2 occ + 2 virt spatial orbitals with spin conserving integrals; every block that is not reported vanishes",
 }
